@@ -96,9 +96,10 @@ def real_constraints(ctx, I):
     from foolscap import banana
     r = ctx.rng
 
-    def leafs():
-        k = r.choice([0, 1, 5, 40, 300])
-        return r.choice([("bytes", ByteStringConstraint(maxLength=k), k), ("int", IntegerConstraint(maxBytes=max(4, k)), max(4, k)),
+    def leafs(k=None, all_=False):
+        if k is None:
+            k = r.choice([0, 1, 5, 40, 300])
+        table = ([("bytes", ByteStringConstraint(maxLength=k), k), ("int", IntegerConstraint(maxBytes=max(4, k)), max(4, k)),
                          ("int32", IntegerConstraint(maxBytes=-1), 0), ("number", NumberConstraint(maxBytes=max(4, k)), max(4, k)),
                          ("unicode", UnicodeConstraint(maxLength=k), 6 * k), ("bool", BooleanConstraint(), 0),
                          # alternatives: the bound is the largest any alternative admits; an OPEN that one alternative admits
@@ -107,6 +108,7 @@ def real_constraints(ctx, I):
                          ("choice-bytes-bool", ChoiceOf(ByteStringConstraint(maxLength=k), bool), k),
                          ("choice-unicode-int", ChoiceOf(UnicodeConstraint(maxLength=k), int), max(6 * k, 1024)),
                          ("choice-int-none", ChoiceOf(IntegerConstraint(maxBytes=max(4, k)), None), max(4, k))])
+        return table if all_ else r.choice(table)
 
     def tree(d):
         """-> (description, constraint, bound on accepted body sizes, path to the first leaf as a list of opentypes)"""
@@ -130,9 +132,10 @@ def real_constraints(ctx, I):
         n2, c2, b2 = leafs()
         return "DictOf(%s,%s)" % (n1, n2), DictOf(c1, c2, maxKeys=2), max(b1, b2), [b"dict"] + p1
 
-    n = ctx.n(120, 2500)
-    for i in range(n):
-        name, c, B, path = tree(r.choice([0, 1, 2, 3]))
+    last = {}
+
+    def trial(name, c, B, path, fixed=None):
+        """fixed = (open_or_None, ty, size, sent, step): a deterministic case; otherwise drawn from the generator"""
         p = I.RealBanana()
         p.receiveStack[-1].constraint = IConstraint(c)
         idxmax = p.rootUnslicer.maxIndexLength
@@ -145,7 +148,11 @@ def real_constraints(ctx, I):
         leafkind = (name.split("(")[-1].split(",")[0].rstrip(")") if path else name) or "none"
         if "maxLength=0" in name or "maxKeys=0" in name or name.endswith("TupleOf()") or "TupleOf()" in name:
             leafkind = "none"
-        if leafkind == "unicode" and r.random() < 0.7:
+        if fixed is not None:
+            if fixed[0] is not None:
+                prefix += tok(OPEN, len(path)) + S(fixed[0])
+                injected_open = fixed[0] != b"unicode" or leafkind != "unicode"
+        elif leafkind == "unicode" and r.random() < 0.7:
             prefix += tok(OPEN, len(path)) + S(b"unicode")
         elif r.random() < 0.35:
             # an OPEN of some type at the leaf position: whether the schema admits it or not, what is announced INSIDE it is still
@@ -153,12 +160,15 @@ def real_constraints(ctx, I):
             prefix += tok(OPEN, len(path)) + S(r.choice([b"unicode", b"none", b"boolean", b"decimal", b"list", b"tuple", b"dict", b"set",
                                                            b"immutable-set", b"copyable", b"reference"]))
             injected_open = True
-        ty = r.choice([STRING, LONGINT, LONGNEG])
-        size = r.choice([B + 1, B + 2, max(B, idxmax) + 1, 10 ** 6, 10 ** 7, 2 ** 448 - 1])
-        if injected_open:
-            size = max(size, 2000)        # beyond every index-token limit too
-        sent = min(size, r.choice([200000, 30000, 5000]))
-        step = r.choice([4096, 1000, 10000])
+        if fixed is not None:
+            ty, size, sent, step = fixed[1:]
+        else:
+            ty = r.choice([STRING, LONGINT, LONGNEG])
+            size = r.choice([B + 1, B + 2, max(B, idxmax) + 1, 10 ** 6, 10 ** 7, 2 ** 448 - 1])
+            if injected_open:
+                size = max(size, 2000)        # beyond every index-token limit too
+            sent = min(size, r.choice([200000, 30000, 5000]))
+            step = r.choice([4096, 1000, 10000])
         hw = 0
         esc = None
         try:
@@ -183,6 +193,33 @@ def real_constraints(ctx, I):
             ctx.fail(sig, "under the size-bounded constraint %s (bound on accepted bodies %d bytes) the receiver held %d bytes "
                      "(>= 65 + max(bound, index limit %d, SIZE_LIMIT)) after a %s token announcing %d bytes" % (name, B, hw, idxmax, hex(ty), size),
                      replay=dict(constraint=name, ty=ty, size=size, sent=sent, step=step, highwater=hw, bound=bound))
+        last.update(name=name, ty=ty, size=size, hw=hw, bound=bound)
+
+    # fixed sweep: every leaf kind, bare / in a list / as a dict key / second in a tuple is not the first leaf so not here, every sized
+    # token kind, two announced sizes; detection of a weakened leaf taster does not depend on the random stream
+    for k in (5, 300):
+        for lname, lc, lb in leafs(k, all_=True):
+            for pos in ("bare", "list", "dict-key"):
+                for ty_ in (STRING, LONGINT, LONGNEG):
+                    for size_ in (10 ** 6, 2 ** 448 - 1):
+                        lname2, lc2, lb2 = [x for x in leafs(k, all_=True) if x[0] == lname][0]     # a fresh constraint object per trial
+                        if pos == "bare":
+                            args = (lname2, lc2, lb2, [])
+                        elif pos == "list":
+                            args = ("ListOf(%s)" % lname2, ListOf(lc2, maxLength=3), lb2, [b"list"])
+                        else:
+                            args = ("DictOf(%s,bytes)" % lname2, DictOf(lc2, ByteStringConstraint(maxLength=5), maxKeys=2), max(lb2, 5), [b"dict"])
+                        trial(*args, fixed=(None, ty_, size_, 5000, 1000))
+                        if "unicode" in lname2 and size_ == 10 ** 6:
+                            lname3, lc3, lb3 = [x for x in leafs(k, all_=True) if x[0] == lname][0]
+                            a3 = (lname3, lc3, lb3, []) if pos == "bare" else \
+                                ("ListOf(%s)" % lname3, ListOf(lc3, maxLength=3), lb3, [b"list"]) if pos == "list" else \
+                                ("DictOf(%s,bytes)" % lname3, DictOf(lc3, ByteStringConstraint(maxLength=5), maxKeys=2), max(lb3, 5), [b"dict"])
+                            trial(*a3, fixed=(b"unicode", ty_, size_, 5000, 1000))
+    n = ctx.n(120, 2500)
+    for i in range(n):
+        trial(*tree(r.choice([0, 1, 2, 3])))
+    name, ty, size, hw, bound = last["name"], last["ty"], last["size"], last["hw"], last["bound"]
     ctx.sample(dict(kind="real-constraint", constraint=name, token=hex(ty), announced=size, highwater=hw, bound=bound))
     full_containers(ctx, I)
     member_counts(ctx, I)
